@@ -260,4 +260,12 @@ COMPONENTS = [
               describe='the same obligations in child interpreters started with -O and '
                        '-OO (the docstring facet is skipped under -OO, which strips '
                        'docstrings)'),
+    Component('preludes', optchild.flagged('C14', check),
+              bulk=optchild.make_bulk('C14', ['catalogue'], flags=('',),
+                                      preludes=('bases', 'subclass')),
+              distinct_by_construction=True, exhaustive=True,
+              shards={'quick': 1, 'thorough': 1},
+              describe='the same sweep in child interpreters after an application-style '
+                       'prelude: accessors called on the abstract bases first; '
+                       'application subclasses of every exception / frame class'),
 ]
